@@ -1,1 +1,305 @@
-// harnesses for unit hooks (mounted under cfg(kani) by the hook in /repo)
+//! K4 — request hooks (tarpc/src/server/request_hook{,/before,/after,/before_and_after}.rs).
+//! Mounted as `crate::server::request_hook::verif_kani` under cfg(kani).
+//!
+//! The code under test is generic in the hook and in the wrapped `Serve`. It is instantiated
+//! with *nondeterministic* implementations: symbolic result (pass/fail), symbolic context
+//! mutation, symbolic response mutation, and an event recorder. A proof for the
+//! nondeterministic instance is a proof for every instance, because the wrappers cannot
+//! observe anything of a hook beyond what these instances vary.
+#![allow(dead_code)]
+
+use super::*;
+use crate::server::Serve;
+use crate::verif_kani_support::{any_instant, run};
+use crate::{context, ServerError};
+use std::cell::RefCell;
+
+#[derive(Clone, Copy, PartialEq, Eq, Debug)]
+pub enum Ev {
+    /// before-hook `id` ran and saw context marker `seen`
+    Before(u8, u64),
+    /// after-hook `id` ran, saw context marker and the response (is_ok, value-or-0)
+    After(u8, u64, bool, u32),
+    /// the handler ran with context marker and request
+    Handler(u64, u32),
+}
+
+pub struct Log {
+    pub evs: [Option<Ev>; 6],
+    pub n: usize,
+}
+impl Log {
+    pub fn new() -> RefCell<Log> {
+        RefCell::new(Log { evs: [None; 6], n: 0 })
+    }
+    pub fn push(&mut self, e: Ev) {
+        if self.n < 6 {
+            self.evs[self.n] = Some(e);
+        }
+        self.n += 1;
+    }
+}
+
+/// the observable part of a context: we use the span id as a marker that hooks may rewrite
+pub fn marker(ctx: &context::Context) -> u64 {
+    ctx.trace_context.span_id.into()
+}
+pub fn set_marker(ctx: &mut context::Context, v: u64) {
+    ctx.trace_context.span_id = v.into();
+}
+pub fn any_ctx(m: u64) -> context::Context {
+    let mut c = context::Context { deadline: any_instant(), trace_context: Default::default() };
+    set_marker(&mut c, m);
+    c
+}
+pub fn err() -> ServerError {
+    ServerError::new(std::io::ErrorKind::Other, String::new())
+}
+
+/// nondeterministic before-hook
+pub struct B<'a> {
+    pub id: u8,
+    pub fail: bool,
+    pub new_marker: u64,
+    pub log: &'a RefCell<Log>,
+}
+impl<'a> BeforeRequest<u32> for B<'a> {
+    async fn before(&mut self, ctx: &mut context::Context, _req: &u32) -> Result<(), ServerError> {
+        self.log.borrow_mut().push(Ev::Before(self.id, marker(ctx)));
+        set_marker(ctx, self.new_marker);
+        if self.fail {
+            Err(err())
+        } else {
+            Ok(())
+        }
+    }
+}
+pub fn any_b<'a>(id: u8, log: &'a RefCell<Log>) -> B<'a> {
+    B { id, fail: kani::any(), new_marker: kani::any(), log }
+}
+
+/// nondeterministic after-hook: may rewrite the response arbitrarily
+pub struct A<'a> {
+    pub id: u8,
+    pub rewrite: bool,
+    pub to_ok: bool,
+    pub to_val: u32,
+    pub log: &'a RefCell<Log>,
+}
+impl<'a> AfterRequest<u32> for A<'a> {
+    async fn after(&mut self, ctx: &mut context::Context, resp: &mut Result<u32, ServerError>) {
+        let (ok, v) = match resp {
+            Ok(v) => (true, *v),
+            Err(_) => (false, 0),
+        };
+        self.log.borrow_mut().push(Ev::After(self.id, marker(ctx), ok, v));
+        if self.rewrite {
+            *resp = if self.to_ok { Ok(self.to_val) } else { Err(err()) };
+        }
+    }
+}
+pub fn any_a<'a>(id: u8, log: &'a RefCell<Log>) -> A<'a> {
+    A { id, rewrite: kani::any(), to_ok: kani::any(), to_val: kani::any(), log }
+}
+
+/// a hook that is both (for before_and_after)
+pub struct BA<'a> {
+    pub b: B<'a>,
+    pub a: A<'a>,
+}
+impl<'a> BeforeRequest<u32> for BA<'a> {
+    async fn before(&mut self, ctx: &mut context::Context, req: &u32) -> Result<(), ServerError> {
+        self.b.before(ctx, req).await
+    }
+}
+impl<'a> AfterRequest<u32> for BA<'a> {
+    async fn after(&mut self, ctx: &mut context::Context, resp: &mut Result<u32, ServerError>) {
+        self.a.after(ctx, resp).await
+    }
+}
+
+/// nondeterministic handler / inner Serve
+pub struct S<'a> {
+    pub fail: bool,
+    pub val: u32,
+    pub log: &'a RefCell<Log>,
+}
+impl<'a> Serve for S<'a> {
+    type Req = u32;
+    type Resp = u32;
+    async fn serve(self, ctx: context::Context, req: u32) -> Result<u32, ServerError> {
+        self.log.borrow_mut().push(Ev::Handler(marker(&ctx), req));
+        if self.fail {
+            Err(err())
+        } else {
+            Ok(self.val)
+        }
+    }
+}
+pub fn any_s<'a>(log: &'a RefCell<Log>) -> S<'a> {
+    S { fail: kani::any(), val: kani::any(), log }
+}
+
+fn same(out: &Result<u32, ServerError>, ok: bool, v: u32) -> bool {
+    match out {
+        Ok(x) => ok && *x == v,
+        Err(_) => !ok,
+    }
+}
+
+/// C19: hook-then-serve: the handler runs iff the hook passed, with the context the hook
+/// produced; its result is returned unchanged; a hook failure becomes the response.
+#[kani::proof]
+#[kani::unwind(8)]
+fn k4_hook_then_serve() {
+    let log = Log::new();
+    let m0: u64 = kani::any();
+    let req: u32 = kani::any();
+    let b = any_b(1, &log);
+    let (bf, bm) = (b.fail, b.new_marker);
+    let s = any_s(&log);
+    let (sf, sv) = (s.fail, s.val);
+    let out = run(s.before(b).serve(any_ctx(m0), req));
+    let l = log.borrow();
+    kani::cover!(!bf && !sf, "reachable: hook passes, handler succeeds");
+    assert!(l.evs[0] == Some(Ev::Before(1, m0)), "C19: the hook runs first and sees the incoming context");
+    if bf {
+        assert!(l.n == 1 && out.is_err(), "C19: a failing before-hook stops the chain; the handler is not invoked; its error is the response");
+    } else {
+        assert!(l.n == 2 && l.evs[1] == Some(Ev::Handler(bm, req)), "C19: the handler sees the context the hook produced and the same request");
+        assert!(same(&out, !sf, sv), "C19: the handler's result is returned unchanged");
+    }
+}
+
+/// C19: serve-then-hook: the after-hook runs exactly once after whatever it wraps produced a
+/// result (including an error), and what it leaves in the result is what is returned.
+#[kani::proof]
+#[kani::unwind(8)]
+fn k4_serve_then_hook() {
+    let log = Log::new();
+    let m0: u64 = kani::any();
+    let req: u32 = kani::any();
+    let a = any_a(7, &log);
+    let (rw, tok, tv) = (a.rewrite, a.to_ok, a.to_val);
+    let s = any_s(&log);
+    let (sf, sv) = (s.fail, s.val);
+    let out = run(s.after(a).serve(any_ctx(m0), req));
+    let l = log.borrow();
+    kani::cover!(sf && rw && tok, "reachable: after-hook turns an error into a success");
+    assert!(l.n == 2, "C19: handler once, after-hook exactly once");
+    assert!(l.evs[0] == Some(Ev::Handler(m0, req)), "C19: the wrapped serve runs first");
+    assert!(l.evs[1] == Some(Ev::After(7, m0, !sf, if sf { 0 } else { sv })), "C19: the after-hook sees the produced result, also when it is an error");
+    if rw {
+        assert!(same(&out, tok, tv), "C19: what the after-hook leaves in the result is what is sent");
+    } else {
+        assert!(same(&out, !sf, sv), "C19: an after-hook that leaves the result alone returns it unchanged");
+    }
+}
+
+/// C19: combined hook: after part skipped when the before part fails; otherwise it sees the
+/// context its before part produced.
+#[kani::proof]
+#[kani::unwind(8)]
+fn k4_before_and_after() {
+    let log = Log::new();
+    let m0: u64 = kani::any();
+    let req: u32 = kani::any();
+    let ba = BA { b: any_b(1, &log), a: any_a(2, &log) };
+    let (bf, bm) = (ba.b.fail, ba.b.new_marker);
+    let (rw, tok, tv) = (ba.a.rewrite, ba.a.to_ok, ba.a.to_val);
+    let s = any_s(&log);
+    let (sf, sv) = (s.fail, s.val);
+    let out = run(s.before_and_after(ba).serve(any_ctx(m0), req));
+    let l = log.borrow();
+    kani::cover!(!bf, "reachable: before part passes");
+    assert!(l.evs[0] == Some(Ev::Before(1, m0)), "C19: before part runs first");
+    if bf {
+        assert!(l.n == 1 && out.is_err(), "C19: before part failed: neither the handler nor the after part runs");
+    } else {
+        assert!(l.n == 3, "C19: before, handler, after: once each");
+        assert!(l.evs[1] == Some(Ev::Handler(bm, req)), "C19: handler sees the context the before part produced");
+        assert!(l.evs[2] == Some(Ev::After(2, bm, !sf, if sf { 0 } else { sv })), "C19: after part sees the context its before part produced, and the result");
+        if rw {
+            assert!(same(&out, tok, tv), "C19: what the after part leaves is what is sent");
+        } else {
+            assert!(same(&out, !sf, sv), "C19: result unchanged");
+        }
+    }
+}
+
+/// C19: a chain built with before().then(h1).then(h2) runs h1 then h2 (then appends at the
+/// end), each seeing the changes of those before it; the first failure stops it; serving()
+/// puts the handler after the whole chain. Chain length 0 (`before().serving(s)`) is `s`.
+#[kani::proof]
+#[kani::unwind(8)]
+fn k4_chain_api_order_and_short_circuit() {
+    let log = Log::new();
+    let m0: u64 = kani::any();
+    let req: u32 = kani::any();
+    let b1 = any_b(1, &log);
+    let b2 = any_b(2, &log);
+    let (f1, m1, f2, m2) = (b1.fail, b1.new_marker, b2.fail, b2.new_marker);
+    let s = any_s(&log);
+    let (sf, sv) = (s.fail, s.val);
+    let out = run(before().then(b1).then(b2).serving(s).serve(any_ctx(m0), req));
+    let l = log.borrow();
+    kani::cover!(!f1 && !f2 && !sf, "reachable: everything passes");
+    assert!(l.evs[0] == Some(Ev::Before(1, m0)), "C19: first chained hook runs first");
+    if f1 {
+        assert!(l.n == 1 && out.is_err(), "C19: first failure stops the chain");
+    } else {
+        assert!(l.evs[1] == Some(Ev::Before(2, m1)), "C19: second hook sees the first hook's context change");
+        if f2 {
+            assert!(l.n == 2 && out.is_err(), "C19: second failure stops the chain, handler not invoked");
+        } else {
+            assert!(l.n == 3 && l.evs[2] == Some(Ev::Handler(m2, req)), "C19: handler runs last with the final context");
+            assert!(same(&out, !sf, sv), "C19: handler result returned unchanged");
+        }
+    }
+}
+
+/// C19: chain length 0: `before()` is the empty list; `before().serving(s)` behaves as `s`.
+#[kani::proof]
+#[kani::unwind(8)]
+fn k4_empty_chain_is_identity() {
+    let log = Log::new();
+    let m0: u64 = kani::any();
+    let req: u32 = kani::any();
+    let s = any_s(&log);
+    let (sf, sv) = (s.fail, s.val);
+    let out = run(before().serving(s).serve(any_ctx(m0), req));
+    let l = log.borrow();
+    assert!(l.n == 1 && l.evs[0] == Some(Ev::Handler(m0, req)), "C19: empty chain: handler only, context untouched");
+    assert!(same(&out, !sf, sv), "C19: result unchanged");
+    let mut nil = before();
+    let mut c = any_ctx(m0);
+    let r = run(BeforeRequest::<u32>::before(&mut nil, &mut c, &req));
+    assert!(r.is_ok() && marker(&c) == m0, "C19: the empty list passes and changes nothing");
+}
+
+/// C19, nesting: after(before(s)) -- the after-hook runs once also when the *inner
+/// before-hook* failed (an error from an inner before-hook is a result like any other).
+#[kani::proof]
+#[kani::unwind(8)]
+fn k4_after_wraps_inner_before_error() {
+    let log = Log::new();
+    let m0: u64 = kani::any();
+    let req: u32 = kani::any();
+    let b = any_b(1, &log);
+    let (bf, bm) = (b.fail, b.new_marker);
+    let a = any_a(9, &log);
+    let rw = a.rewrite;
+    let s = any_s(&log);
+    let (sf, sv) = (s.fail, s.val);
+    let out = run(s.before(b).after(a).serve(any_ctx(m0), req));
+    let l = log.borrow();
+    kani::cover!(bf, "reachable: inner before-hook fails");
+    if bf {
+        assert!(l.n == 2 && l.evs[1] == Some(Ev::After(9, m0, false, 0)), "C19: after-hook runs exactly once on the inner before-hook's error");
+    } else {
+        assert!(l.n == 3 && l.evs[1] == Some(Ev::Handler(bm, req)) && l.evs[2] == Some(Ev::After(9, m0, !sf, if sf { 0 } else { sv })), "C19: before, handler, after");
+    }
+    if !rw {
+        assert!(same(&out, !bf && !sf, sv), "C19: untouched result passes through");
+    }
+}
